@@ -168,7 +168,11 @@ func faultProbeRun(t *rapid.T) {
 		if site == nil {
 			t.Fatalf("VERIF-INTERNAL no site for invocation %+v", inv)
 		}
-		for _, fk := range kindsFor(inv.Kind) {
+		for ki, fk := range kindsFor(inv.Kind) {
+			if ki > 0 && !thorough && uni(t, "extrakind", 5) >= 2 {
+				// quick tier: the plain error always, each further kind for 2 in 5 fault points
+				continue
+			}
 			rt := newRuntime(p, true)
 			rt.FailAt, rt.Kind = k, fk
 			setOrder(mp, mseed)
